@@ -110,8 +110,10 @@ package dsl
 // Alias-transparent primitive lookup. "pure": the result depends only on the argument and the (unmodified) model.
 //@ func GetPrimitiveType
 //@   pure
+//@   stable
 //@ func GetUnderlyingType
 //@   pure
+//@   stable
 
 // ---- C06: evolution verdicts match the documented classes (docs/cpp/evolution.md) -----------------------
 //@ spec func isIntPrim(p PrimitiveDefinition) bool = p == Int8 || p == Int16 || p == Int32 || p == Int64 || p == Uint8 || p == Uint16 || p == Uint32 || p == Uint64 || p == Size
@@ -235,16 +237,19 @@ package dsl
 //@ func (*TypeChangeStreamTypeChanged).Inverse
 //@   property C05,C06
 //@   requires tc != nil
+//@   ensures inner_change_is_inverted_too: result.(*TypeChangeStreamTypeChanged).InnerChange == old(tc.InnerChange).Inverse()
 //@   ensures dual_class: typeof(result) == *TypeChangeStreamTypeChanged
 //@   ensures swaps_old_new: result.(*TypeChangeStreamTypeChanged).Old == old(tc.New) && result.(*TypeChangeStreamTypeChanged).New == old(tc.Old)
 //@ func (*TypeChangeVectorTypeChanged).Inverse
 //@   property C05,C06
 //@   requires tc != nil
+//@   ensures inner_change_is_inverted_too: result.(*TypeChangeVectorTypeChanged).InnerChange == old(tc.InnerChange).Inverse()
 //@   ensures dual_class: typeof(result) == *TypeChangeVectorTypeChanged
 //@   ensures swaps_old_new: result.(*TypeChangeVectorTypeChanged).Old == old(tc.New) && result.(*TypeChangeVectorTypeChanged).New == old(tc.Old)
 //@ func (*TypeChangeOptionalTypeChanged).Inverse
 //@   property C05,C06
 //@   requires tc != nil
+//@   ensures inner_change_is_inverted_too: result.(*TypeChangeOptionalTypeChanged).InnerChange == old(tc.InnerChange).Inverse()
 //@   ensures dual_class: typeof(result) == *TypeChangeOptionalTypeChanged
 //@   ensures swaps_old_new: result.(*TypeChangeOptionalTypeChanged).Old == old(tc.New) && result.(*TypeChangeOptionalTypeChanged).New == old(tc.Old)
 
@@ -300,3 +305,21 @@ package dsl
 //@   pure
 //@ func (*DefinitionMeta).GetQualifiedName
 //@   pure
+//@ func IsIntegralType
+//@   pure
+
+// The inverse of a change is a function of the change (interface observer used by the wrapper classes).
+//@ func dsl.TypeChange.Inverse
+//@   pure
+
+// ---- C19: the static type of `a op b` is computed from the COMMON type of the operands (symmetric in a and b), never
+// from one operand alone: `**` yields float64 when the common type is an integer type and the common type otherwise;
+// the other operators yield the common type, with the small integer types promoted to int32. ---------------------
+//@ func GetKindIfPrimitive
+//@   pure
+//@   stable
+//@ spec func commonOf() Type = lastResult(GetCommonType).r0
+//@ func resolveComputedFields$1
+//@   property C19
+//@   ensures pow_promotes_by_common_type: typeof(node) == *BinaryExpression && called(GetCommonType) && !called(validationError) && typeof(result) == *BinaryExpression && result.(*BinaryExpression) != nil && result.(*BinaryExpression).Operator == BinaryOpPow && result.(*BinaryExpression).ResolvedType != nil ==> (GetKindIfPrimitive(commonOf()).r0 == PrimitiveKindInteger ==> result.(*BinaryExpression).ResolvedType == Float64Type) && (GetKindIfPrimitive(commonOf()).r0 != PrimitiveKindInteger ==> result.(*BinaryExpression).ResolvedType == commonOf())
+//@   ensures small_integers_promote_to_int32: typeof(node) == *BinaryExpression && called(GetCommonType) && !called(validationError) && typeof(result) == *BinaryExpression && result.(*BinaryExpression) != nil && result.(*BinaryExpression).Operator != BinaryOpPow && result.(*BinaryExpression).ResolvedType != nil ==> ((GetPrimitiveType(commonOf()).primitive == Int8 || GetPrimitiveType(commonOf()).primitive == Uint8 || GetPrimitiveType(commonOf()).primitive == Int16 || GetPrimitiveType(commonOf()).primitive == Uint16) ==> result.(*BinaryExpression).ResolvedType == Int32Type) && (!(GetPrimitiveType(commonOf()).primitive == Int8 || GetPrimitiveType(commonOf()).primitive == Uint8 || GetPrimitiveType(commonOf()).primitive == Int16 || GetPrimitiveType(commonOf()).primitive == Uint16) ==> result.(*BinaryExpression).ResolvedType == commonOf())
